@@ -461,6 +461,29 @@ static void fill_table()
                         (unsigned long long)(uintptr_t)c.UNSAFE_sandboxed(sb)));
         new CB(std::move(c)); // leak the bogus owner: destroying it would act on a registration it does not have
       } else n_refused_full++;
+      // a refused registration leaves the function unregistered: once an entry point is free it can be registered
+      // (observable when the refusal is an exception and the client carries on)
+      if (ab) {
+        int k = BT<B>::CAP / 3;
+        owners[k]->unregister();
+        CB c2;
+        mon::ctx("%s/fill-table | register the refused function again after releasing an entry point", BT<B>::name);
+        bool ab2 = mon::aborts([&] { c2 = sb.register_callback(fns[BT<B>::CAP]); });
+        if (ab2 || c2.is_unregistered()) {
+          report(BT<B>::name, "register-after-refusal", "refused-function-cannot-be-registered-later",
+                 mon::fmt("history [register f0..f%d; register f%d (refused: no free entry point); unregister f%d; register f%d]: the last registration %s although an entry point is free and f%d has no live owner",
+                          BT<B>::CAP - 1, BT<B>::CAP, k, BT<B>::CAP, ab2 ? "aborted" : "returned an unregistered object", BT<B>::CAP));
+        } else {
+          cbpool::runlog.reset();
+          int r = BT<B>::call(sb, c2, 1);
+          if (cbpool::runlog.runs != 1 || cbpool::runlog.last_fn != BT<B>::CAP || r != 1 + BT<B>::CAP) report(BT<B>::name, "register-after-refusal", "entry-point-does-not-run-its-function", mon::fmt("ran f%d", cbpool::runlog.last_fn));
+          else n_call_ok++;
+          c2.unregister();
+        }
+        // restore the full table for the check below
+        bool ab3 = mon::aborts([&] { *owners[k] = sb.register_callback(fns[k]); });
+        if (ab3 || owners[k]->is_unregistered()) report(BT<B>::name, "register-after-refusal", "released-function-cannot-be-registered-again", mon::fmt("f%d", k));
+      }
       // every entry point still runs its own function
       for (int f = 0; f < BT<B>::CAP; f++) {
         cbpool::runlog.reset();
